@@ -433,9 +433,18 @@ func (p *provRunner) Do(line string) {
 		})
 	case "begin":
 		w.advance(op.i("dh"), time.Duration(op.i("dt")))
+		if rep := p.replicaDigests(func(ctx sdk.Context) string { return fmt.Sprint(w.mod.BeginBlock(ctx) != nil) }); rep != "" {
+			extra = append(extra, "rep", rep)
+		}
 		err = p.guard(func() error { return w.mod.BeginBlock(w.ctx) })
 	case "end":
 		var ups []abci.ValidatorUpdate
+		if rep := p.replicaDigests(func(ctx sdk.Context) string {
+			u, e := w.mod.EndBlock(ctx)
+			return fmt.Sprint(w.pool.fmtUpdates(u), e != nil)
+		}); rep != "" {
+			extra = append(extra, "rep", rep)
+		}
 		err = p.guard(func() error {
 			var e error
 			ups, e = w.mod.EndBlock(w.ctx)
@@ -496,6 +505,13 @@ func (p *provRunner) Do(line string) {
 	}
 	res := errClass(err)
 	kv := append([]any{"res", res}, extra...)
+	if err != nil && debugWhy && (op.name == "begin" || op.name == "end") {
+		m := err.Error()
+		if len(m) > 160 {
+			m = m[:160]
+		}
+		kv = append(kv, "why", strings.NewReplacer(" ", "_", "\n", "").Replace(m))
+	}
 	if eff := w.env.takeEffects(w.ctx); len(eff) > 0 {
 		kv = append(kv, "effects", strings.ReplaceAll(strings.Join(eff, "|"), " ", "_"))
 	}
@@ -972,3 +988,48 @@ func b64(bz []byte) string {
 }
 
 var _ = cryptocodec.RegisterInterfaces
+
+// replicas of one block hook (C18): the hook is run `replicas` times on throw-away branches of the
+// current state; every replica must return the same value, write the same bytes to the provider
+// store, emit the same packet bytes and make the same calls to the environment.  Returns "" when
+// switched off, else "same" or a description of the first difference.
+var replicas int
+
+func (p *provRunner) replicaDigests(f func(ctx sdk.Context) string) (out string) {
+	if replicas == 0 || len(p.w.env.fail) > 0 {
+		return ""
+	}
+	defer func() {
+		if r := recover(); r != nil {
+			out = "" // the real run reports the panic
+		}
+	}()
+	w := p.w
+	var first map[string]string
+	for i := 0; i < replicas; i++ {
+		cctx, _ := w.ctx.CacheContext()
+		ret := f(cctx)
+		d := w.dumpStore(cctx)
+		d["~ret"] = ret
+		for j, sp := range w.chk.takeSent(cctx) {
+			d[fmt.Sprintf("~sent%d", j)] = fmt.Sprintf("%s/%s/%d/%x/%d", sp.Port, sp.Channel, sp.Seq, sp.Data, sp.Timeout)
+		}
+		d["~effects"] = strings.Join(w.env.takeEffects(cctx), "|")
+		if first == nil {
+			first = d
+			continue
+		}
+		if diff := diffKeys(first, d); len(diff) > 0 {
+			k := diff[0]
+			a, b := first[k], d[k]
+			if len(a) > 120 {
+				a = a[:120]
+			}
+			if len(b) > 120 {
+				b = b[:120]
+			}
+			return strings.NewReplacer(" ", "_").Replace(fmt.Sprintf("differ:key=%s:%s:vs:%s", k, a, b))
+		}
+	}
+	return "same"
+}
